@@ -171,6 +171,7 @@ def run(ctx):
         "RE() returns the uids / result fields in order, plan_return is the StopIteration value; D5 the only await between popping "
         "a response and re-pushing is the command itself. Not decided: contents of responses.")
     d1_stack_invariant(ctx, rm)
+    q.per_call_reset(ctx, rm, "C13.D2-stacks-reset-per-call", ["_plan_stack", "_response_stack"])
     d2_paired_pushes(ctx, rm)
     d3_response_is_current(ctx, rm)
     d4_run_uids(ctx, rm)
